@@ -278,16 +278,18 @@ def replay(cases, *, deadline="10s", workers=None, name="replay", _retry=False):
             results[x["id"]] = x
     shutil.rmtree(d, ignore_errors=True)
     # a deadline miss counts only if it is reproducible: on a loaded machine a harmless case can be slow.
-    # The cases that timed out are run again, a few at a time, with six times the deadline.  As soon as one batch
+    # The cases that timed out are run again, four at a time, with six times the deadline (three times when
+    # the deadline is a minute or more).  As soon as one batch
     # confirms a hang the verdict of the run is settled: the late cases not yet retried are left undecided
     # (not counted as violations) instead of being waited for, six deadlines each.
     late = [c for c in cases if results.get(c["id"], {}).get("timeout")]
     if late and not _retry:
         m = re.match(r"(\d+)s", deadline)
-        longer = "%ds" % (int(m.group(1)) * 6 if m else 120)
+        secs = int(m.group(1)) if m else 20
+        longer = "%ds" % (secs * (6 if secs < 60 else 3))
         confirmed = False
-        for i in range(0, len(late), 8):
-            batch = late[i:i + 8]
+        for i in range(0, len(late), 4):
+            batch = late[i:i + 4]
             if confirmed:
                 for c in batch:
                     results[c["id"]] = {"id": c["id"], "ok": False, "undecided": True,
